@@ -198,6 +198,27 @@ static void op_cdot(Cur& c, std::ostream& o)
   o << "D " << sum.str();
 }
 
+// Gate::dot_async on composite vectors: the real member per patch (ticket waited for), allreduce emulated
+template<typename K_>
+static void op_casync(Cur& c, std::ostream& o)
+{
+  typedef typename K_::VT VT;
+  auto ps = read_cdecomp<K_>(c);
+  std::vector<VT> xs, ys;
+  for(std::size_t r = 0; r < ps.size(); ++r) xs.push_back(read_cvec<K_>(c, ps[r].n));
+  for(std::size_t r = 0; r < ps.size(); ++r) ys.push_back(read_cvec<K_>(c, ps[r].n));
+  CGates<K_> G(ps);
+  Q dxy(0), dxx(0), dxx2(0);
+  for(std::size_t r = 0; r < ps.size(); ++r)
+  {
+    dxy = dxy + G.gates[r]->dot_async(xs[r], ys[r]).wait();
+    dxx = dxx + G.gates[r]->dot_async(xs[r], xs[r], false).wait();
+    dxx2 = dxx2 + G.gates[r]->dot_async(xs[r], xs[r]).wait();
+  }
+  Global::SynchScalarTicket<Q> t(dxx2, G.comm, Dist::op_sum, true);
+  o << "A " << dxy.str() << " " << dxx.str() << " " << t.wait().str();
+}
+
 template<typename K_>
 static void op_cmux(Cur& c, std::ostream& o, bool join)
 {
@@ -282,6 +303,7 @@ static bool composite_kind(const std::string& op, Cur& c, std::ostream& o)
   if(op == "csync0") op_csync<K_>(c, o, false);
   else if(op == "csync1") op_csync<K_>(c, o, true);
   else if(op == "cdot") op_cdot<K_>(c, o);
+  else if(op == "casync") op_casync<K_>(c, o);
   else if(op == "cmuxjoin") op_cmux<K_>(c, o, true);
   else if(op == "cmuxsplit") op_cmux<K_>(c, o, false);
   else return false;
